@@ -531,6 +531,12 @@ void rt_cell_set(uint32_t idx, int64_t v) {
     if (idx >= g.cells_hi) g.cells_hi = idx + 1;
     g_cells[idx] = v;
 }
+void rt_ledger_reset() {
+    if (g.cells_hi) memset(g_cells, 0, sizeof(int64_t) * g.cells_hi);
+    g.cells_hi = 0;
+    g.nev = 0;
+    memset(g_probes, 0, sizeof g_probes);
+}
 void rt_probe(uint32_t idx) { if (idx < RT_NPROBES) g_probes[idx]++; }
 uint64_t rt_probe_get(uint32_t idx) { return idx < RT_NPROBES ? g_probes[idx] : 0; }
 
